@@ -13,7 +13,7 @@ NameSeq == <<<<65>>,
             <<76, 69, 71, 69, 78, 68, 40, 83, 41, 95, 49, 53, 99, 104, 114>>,
             <<69, 78, 68, 79, 45, 49, 44, 50>>,
             <<116, 104, 101, 114, 109, 111, 40, 115, 41>>>>
-\* composition: H2; C12 H0 O1; Pt123; H2 C12 Pt123 O1; Pt12 Cl999 C1 Na100; H100 Ni5; Pt0 H2 O1 (zero first); Ar0 C1 H3 He0 N1 O2 (six entries, non-zero after the fourth)
+\* composition: H2; C12 H0 O1; Pt123; H2 C12 Pt123 O1; Pt12 Cl999 C1 Na100; H100 Ni5; Pt0 H2 O1 (zero first); Ar0 C1 H3 He0 N1 O2 (six entries, non-zero after the fourth); PT1 cu12 x3 RU128 and h2 ru128 (symbols not capitalised Xx)
 ElemSeq == <<<<<<<<72>>, 2>>>>,
             <<<<<<67>>, 12>>, <<<<72>>, 0>>, <<<<79>>, 1>>>>,
             <<<<<<80, 116>>, 123>>>>,
@@ -21,7 +21,9 @@ ElemSeq == <<<<<<<<72>>, 2>>>>,
             <<<<<<80, 116>>, 12>>, <<<<67, 108>>, 999>>, <<<<67>>, 1>>, <<<<78, 97>>, 100>>>>,
             <<<<<<72>>, 100>>, <<<<78, 105>>, 5>>>>,
             <<<<<<80, 116>>, 0>>, <<<<72>>, 2>>, <<<<79>>, 1>>>>,
-            <<<<<<65, 114>>, 0>>, <<<<67>>, 1>>, <<<<72>>, 3>>, <<<<72, 101>>, 0>>, <<<<78>>, 1>>, <<<<79>>, 2>>>>>>
+            <<<<<<65, 114>>, 0>>, <<<<67>>, 1>>, <<<<72>>, 3>>, <<<<72, 101>>, 0>>, <<<<78>>, 1>>, <<<<79>>, 2>>>>,
+            <<<<<<80, 84>>, 1>>, <<<<99, 117>>, 12>>, <<<<120>>, 3>>, <<<<82, 85>>, 128>>>>,
+            <<<<<<104>>, 2>>, <<<<114, 117>>, 128>>>>>>
 PhaseSeq == <<71, 83>>                      \* G, S
 \* notes: none, "ab END c" (blanks and a keyword inside columns 17-24)
 NoteSeq == <<<<>>, <<97, 98, 32, 69, 78, 68, 32, 99>>>>
